@@ -343,6 +343,18 @@ def main():
             data = json.load(open(a.replay if os.path.isabs(a.replay) else os.path.join(HERE, a.replay)))
             ok = lean.build(list(dict.fromkeys([mod.LEAN_PROP] + list(getattr(mod, "LEAN_TARGETS", [])))))[0]
             rc = mod.replay(ctx, data)
+            if ctx.candidates:
+                # same rule as a full run: a reproduced failing input of a listed class that still conforms to the
+                # model is a known finding (exit 0); anything else reproduces a violation (exit 1)
+                kc = {e["class"] for e in load_known(ctx.prop) if e.get("status") == "known"}
+                new = [c for c in ctx.candidates if not (c["class"] in kc and c["conforms"])]
+                for cls in sorted({c["class"] for c in ctx.candidates if c["class"] in kc and c["conforms"]}):
+                    print("KNOWN-FINDING: property=%s class=%s reproduced by the replay" % (ctx.prop, cls))
+                if new:
+                    print("VIOLATION property=%s replay=%s" % (ctx.prop, a.replay))
+                    rc = 1
+                elif not ctx.broken:
+                    rc = 0
             sys.exit(rc)
         anchors_check(ctx, mod)
         built = lean_phase(ctx, mod)
